@@ -15,6 +15,9 @@ package icc
 
 //@ func ProfileReader.ReadProfile
 //@   recovers
+//@   alloc_bound pr.reader.len
+//@   ensures [C09,C07,C17] error-means-no-profile: err != nil ==> p == nil
+//@   ensures [C17,C16] success-consumed-header: err == nil ==> p != nil && pr.reader.pos >= old(pr.reader.pos) + 132
 
 //@ func ProfileReader.readHeader
 //@   ensures [C16,C08] accepts: old(pr.reader.avail) >= 128 && be32(pr.reader, old(pr.reader.pos)+36) == 0x61637370 ==> result == nil
@@ -39,3 +42,49 @@ package icc
 //@   ensures [C16] illuminant: result == nil ==> header.PCSIlluminant[0] == be32(pr.reader, old(pr.reader.pos)+68) && header.PCSIlluminant[1] == be32(pr.reader, old(pr.reader.pos)+72) && header.PCSIlluminant[2] == be32(pr.reader, old(pr.reader.pos)+76)
 //@   ensures [C16] creator: result == nil ==> uint32(header.ProfileCreator) == be32(pr.reader, old(pr.reader.pos)+80)
 //@   ensures [C16] id: result == nil ==> forall k int :: 0 <= k && k < 16 ==> header.ProfileID[k] == u8(pr.reader, old(pr.reader.pos)+84+k)
+
+// ---- C17/C09: tag table and profile description (thin contracts: no panic can escape Description,
+// allocation bounded by the input, every code unit of a multi-localised string is taken from the
+// record's declared offset). Maps with non-scalar values are abstract: a look-up yields an arbitrary value.
+
+//@ func parseTextDescription
+//@   alloc_bound len(data)
+//@   loop 1 invariant [C17,C09] copied: 0 <= i && i <= len(asciiBytes) && reader.pos == 12 + i
+//@   loop 1 step [C17] ascii-from-offset-12: asciiBytes[prev(i)] == u8(data, 12 + prev(i))
+//@   loop 1 decreases len(asciiBytes) - i
+//@   ensures [C17,C09] needs-header: len(data) < 12 ==> result1 != nil
+
+//@ func parseMultiLocalisedUnicode
+//@   alloc_bound len(data)
+//@   loop 1 invariant [C17,C09] records: true
+//@   loop 1 decreases reader.len - reader.pos
+//@   loop 2 invariant [C17,C09] units: 0 <= j && j <= len(recordStringUTF16)
+//@   loop 2 step [C17] unit-from-declared-offset: recordStringUTF16[prev(j)] == be16(data, int(stringOffset) + 2*prev(j))
+//@   loop 2 decreases len(recordStringUTF16) - j
+//@   loop 3 invariant [C09] skipping: 12 <= j
+//@   loop 3 decreases int(recordSize) - int(j)
+//@   ensures [C17,C09] needs-header: len(data) < 16 ==> result1 != nil
+
+//@ func MultiLocalisedUnicode.getAnyString
+//@   loop 1 invariant [C09,C17] iterating: true
+//@   ensures [C09,C17] returns: true
+
+//@ func MultiLocalisedUnicode.getStringForLanguage
+//@   ensures [C09,C17] returns: true
+
+//@ func MultiLocalisedUnicode.setString
+//@   ensures [C09,C17] returns: true
+
+//@ func TagTable.getProfileDescription
+//@   ensures [C09,C17] returns: true
+
+//@ func Profile.Description
+//@   ensures [C09,C17] returns: true
+
+//@ func ProfileReader.readTagTable
+//@   may_panic
+//@   alloc_bound pr.reader.len
+//@   loop 1 invariant [C17,C09] entries: i <= tagCount
+//@   loop 1 decreases int(tagCount) - int(i)
+//@   loop 2 invariant [C17,C09] iterating: true
+//@   ensures [C17,C09] returns: true
